@@ -488,6 +488,11 @@ func ruleLocks(r *Report) {
 		r.Saw(fn)
 		fk := FuncKey(fn)
 		inCloseTail := fk == "simpledb.DB.Close"
+		if par := fn.Parent(); par != nil && FuncKey(par) == "simpledb.DB.Close" {
+			if ds, ok := deferSiteOf(fn); ok && closeTailSite(ds) {
+				inCloseTail = true
+			}
+		}
 		eachInstr(fn, func(s Site) {
 			switch x := s.Instr.(type) {
 			case *ssa.Store:
@@ -644,6 +649,10 @@ func ruleLocks(r *Report) {
 
 // closeTailSite: in DB.Close, the site is dominated by the immediately-invoked closure that performs the join.
 func closeTailSite(s Site) bool {
+	// a function literal deferred in the tail runs when Close returns: later still
+	if ds, ok := deferSiteOf(s.Fn); ok {
+		s = ds
+	}
 	for _, a := range s.Fn.AnonFuncs {
 		cs, ok := immediateCallOf(a)
 		if !ok {
